@@ -331,7 +331,7 @@ def rule_core(ctx):
     # list algebra: wrap extension of the shorter operand
     lb = repo.func('sc3.base.utils:list_binop')
     src = full(lb.node)
-    ok = 'if len(a) >= len(b): b = wrap_extend(list(b), len(a)) else: a = wrap_extend(list(a), len(b))' in src and \
+    ok = 'if len(b) <= len(a): b = wrap_extend(list(b), len(a)) else: a = wrap_extend(list(a), len(b))' in src and \
         'return t((op(i[0], i[1]) for i in zip(a, b)))' in src
     ctx.ob('C03.core', f'{lb.module.name}:list_binop:wrap-zip', ok, 'binary list op must wrap the shorter operand and zip', lb.node, lb.module)
     # tuples are opaque to expansion: the sequence test of the list algebra must not include tuple
